@@ -23,7 +23,10 @@ Inductive stmt :=
 | SPass (f : N) (s : star)    (* f(kwargs): the object is handed to other code *)
 | SAlias (y : N) (s : star)   (* y = kwargs *)
 | SOther (f : N)              (* f(<constant>) *)
-| SIf (a b : list stmt).      (* if <constant>: a  else: b *)
+| SIf (a b : list stmt)       (* if <constant>: a  else: b *)
+| SLambdaMut (m : N).         (* (lambda: kwargs.m(<constant>, <constant>))() : a mutation in a
+                                 nested scope, run on the spot; OUTSIDE the fragment the theorems
+                                 cover ([flat] is false), it carries the refutation witness *)
 
 (* ---- execution semantics ---- *)
 Record sem := mkSem { pr_a : bool; pr_k : bool }.
@@ -39,7 +42,7 @@ Definition taint_sem (s : star) (st : sem) : sem :=
 (* number of call expressions of a statement *)
 Fixpoint ncalls (s : stmt) : nat :=
   match s with
-  | SFwd _ _ _ _ _ | SMethod _ _ | SPass _ _ | SOther _ => 1
+  | SFwd _ _ _ _ _ | SMethod _ _ | SPass _ _ | SOther _ | SLambdaMut _ => 1
   | SIf a b =>
       (fix go (l : list stmt) : nat := match l with [] => O | x :: l' => (ncalls x + go l')%nat end) a
       + (fix go (l : list stmt) : nat := match l with [] => O | x :: l' => (ncalls x + go l')%nat end) b
@@ -76,6 +79,7 @@ Fixpoint exec_stmt (fuel : nat) (off : nat) (s : stmt) (st : sem) : list (sem * 
       | SPass _ SA => [(st, [mkEvent off None None])]
       | SAlias _ _ => [(st, [])]
       | SOther _ => [(st, [mkEvent off None None])]
+      | SLambdaMut _ => [(taint_sem SK st, [mkEvent off None None])]
       | SIf a b => exec_block a off st ++ exec_block b (off + ncalls_block a)%nat st
       end
   end.
@@ -100,6 +104,18 @@ Fixpoint depth (s : stmt) : nat :=
 
 Fixpoint depth_block (l : list stmt) : nat :=
   match l with [] => O | x :: l' => Nat.max (depth x) (depth_block l') end.
+
+(* the fragment the theorems cover: no mutation in a nested scope *)
+Fixpoint flat (s : stmt) : bool :=
+  match s with
+  | SLambdaMut _ => false
+  | SIf a b =>
+      (fix go (l : list stmt) : bool := match l with [] => true | x :: l' => flat x && go l' end) a
+      && (fix go (l : list stmt) : bool := match l with [] => true | x :: l' => flat x && go l' end) b
+  | _ => true
+  end.
+
+Definition flat_block (l : list stmt) : bool := forallb flat l.
 
 (* ---- the walker's view, as an abstract interpretation ---- *)
 (* (ka, kk): the walker still regards *args / **kwargs as the pristine own star *)
@@ -126,6 +142,7 @@ Fixpoint absint (s : stmt) (k : bool * bool) : (bool * bool) * list flags :=
   | SAlias _ SK => (taint_abs SK k, [])
   | SAlias _ SA => (k, [])
   | SOther _ => (k, [(false, false, false, false)])
+  | SLambdaMut _ => (k, [(false, false, false, false)])       (* not meaningful: outside [flat] *)
   | SIf a b => let '(k1, f1) := block a k in let '(k2, f2) := block b k1 in (k2, f1 ++ f2)
   end.
 
@@ -160,6 +177,8 @@ Fixpoint compile (s : stmt) : node :=
   | SPass f x => NOpaque [NCall (NName f Load) [NName (sname x) Load] []]
   | SAlias y x => NOpaque [NName y Store; NName (sname x) Load]
   | SOther f => NOpaque [NCall (NName f Load) [const] []]
+  | SLambdaMut m =>                          (* Expr(Call(func=Lambda(args, body=Call(...)), [], [])) *)
+      NOpaque [NCall (NFunc [] [] None None [NCall (NAttr (NName vk Load) m) [const; const] []]) [] []]
   | SIf a b =>                                                         (* If(test, body, orelse) *)
       NOpaque (const :: (fix go (l : list stmt) : list node :=
                            match l with [] => [] | x :: l' => compile x :: go l' end) a
@@ -176,6 +195,7 @@ Fixpoint names_ok (s : stmt) : bool :=
   | SFwd c _ _ _ _ => ok c
   | SPass f _ | SOther f => ok f
   | SAlias y _ => ok y
+  | SLambdaMut _ => false
   | SIf a b =>
       (fix go (l : list stmt) : bool := match l with [] => true | x :: l' => names_ok x && go l' end) a
       && (fix go (l : list stmt) : bool := match l with [] => true | x :: l' => names_ok x && go l' end) b
